@@ -549,7 +549,7 @@ theorem finally_is_atomic :
 theorem writer_retries_in_place :
     Gen.C11Tables.writerAwaits = ["self._execute_queue.get", "self.connection.execute", "self.connection.commit"] ∧
     Gen.C11Tables.writerOnOperationalError = ["logger.warning"] ∧ Gen.C11Tables.writerRetriesInPlace = true ∧
-    Gen.C11Tables.writerExecuteGuard = "not executed / executed = True" ∧ Gen.C11Tables.writerTaskDoneInFinally = true ∧
+    Gen.C11Tables.writerExecuteGuard = "not executed / execute; executed = True" ∧ Gen.C11Tables.writerTaskDoneInFinally = true ∧
     Gen.C11Tables.disconnectAwaits =
       ["self._execute_queue.join", "self._executor_task", "self.connection.commit", "self.connection.close"] := by decide
 
